@@ -1,2 +1,39 @@
-(* Properties_C06.v -- placeholder until BinIOProofs.v lands: see below *)
-From Covfie Require Import Stack BinIO.
+(* Properties_C06.v -- C06: dumping a field and loading it back reproduces it exactly.
+   Only the property theorems, closed by [exact].  The model is BinIO.v (byte-level writer and
+   reader of every layer) instantiated with the Flocq scalar operations; it is tied to the code by
+   the byte-exact correspondence check (props/c06.py). *)
+From Coq Require Import ZArith List Bool.
+From Covfie Require Import Stack BinIO BinIOProofs FloatOps.
+Import ListNotations.
+Local Open Scope Z_scope.
+
+Lemma flocq_conv_id : forall t v, is_float t = true -> s_conv flocq_ops t t v = v.
+Proof. intros t v H. destruct t; try discriminate; reflexivity. Qed.
+
+(* every stack of the grammar, every well-formed field (any bit patterns: signed zeros, subnormals,
+   infinities, NaN payloads are just numbers here), any bytes following the dump *)
+Theorem C06_load_dump : forall s f bs tl, wf_fld s f = true -> dump s f = Some bs ->
+  load flocq_ops s (bs ++ tl) = Good (f, tl).
+Proof. exact (load_dump flocq_ops flocq_conv_id). Qed.
+
+(* dumping the reloaded field produces exactly the same bytes as the first dump *)
+Theorem C06_dump_load_dump : forall s f bs f' rest, wf_fld s f = true -> dump s f = Some bs ->
+  load flocq_ops s bs = Good (f', rest) -> rest = [] /\ dump s f' = Some bs.
+Proof. exact (dump_load_dump flocq_ops flocq_conv_id). Qed.
+
+(* every layer of the grammar is serialisable: a well-formed field always has a dump *)
+Theorem C06_dump_total : forall s f, wf_fld s f = true -> exists bs, dump s f = Some bs.
+Proof. exact dump_total. Qed.
+
+(* non-vacuity: a five-layer stack with every kind of configuration *)
+Example C06_example :
+  let s := ([LAffine; LLinear F32; LBackup; LClamp; LStrided 2 U64], PArray 1 F32) in
+  let f := {| f_cfgs := [CAffine [1065353216; 0; 0; 0; 1065353216; 0]; CUnit; CBackup [0; 0] [1; 0] [2143289344];
+                         CBox [0; 0] [1; 0]; CSizes [2; 1]];
+              f_prim := DArray 2 [2147483648; 8388607] |} in
+  wf_fld s f = true /\ (exists bs, dump s f = Some bs /\ length bs = 224%nat /\ load flocq_ops s bs = Good (f, [])).
+Proof. cbn zeta. split; [reflexivity|]. eexists. split; [reflexivity|]. split; vm_compute; reflexivity. Qed.
+
+Print Assumptions C06_load_dump.
+Print Assumptions C06_dump_load_dump.
+Print Assumptions C06_dump_total.
